@@ -185,7 +185,7 @@ def run(ctx, res):
                 tm = bl["term"]
                 if tm["k"] == "assert" and tm["ln"] == o.info.get("line") and tm["msg"]["kind"] == "Overflow" and "Add" in str(tm["msg"].get("op") or o.info.get("op") or "Add"):
                     ops = tm["msg"]["ops"] or []
-                    wide = [op_ for op_ in ops if op_["k"] in ("copy", "move") and (ip.int_info(fbody["locals"][op_["p"]["l"]]["ty"]) or (0,))[0] == 64]
+                    wide = [op_ for op_ in ops if op_["k"] in ("copy", "move") and (ip.int_info(op_["p"].get("ty", fbody["locals"][op_["p"]["l"]]["ty"])) or (0,))[0] == 64]
                     small = False
                     dfs = fg.defs()
                     for op_ in ops:
